@@ -351,6 +351,69 @@ enum Case {
         #[serde(default)]
         tag: String,
     },
+    /// the 256 paths  prefix %lead %b1  (hex digits upper or lower case)
+    Sweep2 {
+        table: usize,
+        prefix: String,
+        upper: bool,
+        lead: u8,
+        #[serde(default)]
+        tag: String,
+    },
+    /// every slash placement (1-2 leading, 1-3 per gap, 0-2 trailing) of one
+    /// non-empty segment list: spellings of one path
+    Place {
+        table: usize,
+        segs: Vec<String>,
+        #[serde(default)]
+        tag: String,
+    },
+}
+
+fn sweep2_paths(prefix: &str, upper: bool, lead: u8) -> Vec<String> {
+    (0..=255u8).map(|b1| format!("{}{}{}", prefix, esc(lead, upper, upper), esc(b1, upper, upper))).collect()
+}
+
+fn placements(segs: &[String]) -> Vec<String> {
+    let ngaps = segs.len() - 1;
+    let mut out = vec![];
+    for lead in 1..=2usize {
+        for gcode in 0..3usize.pow(ngaps as u32) {
+            let mut g = gcode;
+            let mut gaps = vec![];
+            for _ in 0..ngaps {
+                gaps.push(1 + g % 3);
+                g /= 3;
+            }
+            for trail in 0..=2usize {
+                out.push(assemble(segs, lead, &gaps, trail));
+            }
+        }
+    }
+    out
+}
+
+/// run-length encoded observations, with the short names of Run_C03.v
+fn g_runs(obs: &[Ob]) -> String {
+    let short = |o: &Ob| -> String {
+        match o {
+            Ob::Status(400) => "R4".to_string(),
+            Ob::Deliver { idx: 0, vals } if vals.len() == 1 => match &vals[0] {
+                VV::M(l) if l.len() == 1 => format!("D1 {}", g_str(&l[0])),
+                VV::S(s) => format!("DV {}", g_str(s)),
+                _ => g_ob(o),
+            },
+            _ => g_ob(o),
+        }
+    };
+    let mut runs: Vec<(usize, &Ob)> = vec![];
+    for o in obs {
+        match runs.last_mut() {
+            Some((n, p)) if *p == o => *n += 1,
+            _ => runs.push((1, o)),
+        }
+    }
+    g_list(&runs, |(n, o)| format!("({}, {})", n, short(o)))
 }
 
 struct Ctx {
@@ -415,6 +478,43 @@ fn exec(ctx: &mut Ctx, case: &Case) -> Line {
                 coq,
                 tags,
                 nontrivial: paths.iter().any(|p| has_escape_or_extra(p)),
+            }
+        }
+        Case::Sweep2 { table, tag, .. } | Case::Place { table, tag, .. } => {
+            assert!(*table < TABLES.len(), "table id");
+            let (paths, head) = match case {
+                Case::Sweep2 { prefix, upper, lead, .. } => (
+                    sweep2_paths(prefix, *upper, *lead),
+                    format!("CSweep2 {} {} {} {}", g_table(*table), g_str(prefix), g_bool(*upper), lead),
+                ),
+                Case::Place { segs, .. } => {
+                    assert!(!segs.is_empty() && segs.len() <= 6, "1..6 segments");
+                    (placements(segs), format!("CPlace {} {}", g_table(*table), g_list(segs, |s| g_str(s))))
+                }
+                _ => unreachable!(),
+            };
+            let obs: Vec<Ob> = paths.iter().map(|p| ctx.look(*table, p)).collect();
+            let coq = format!(
+                "({} {} {} {})",
+                head,
+                g_str(&paths[0]),
+                g_str(&paths[paths.len() - 1]),
+                g_runs(&obs)
+            );
+            let group = if tag.is_empty() { "enumerated" } else { tag.as_str() };
+            let mut tags = vec![format!("group:{}", group), format!("table:{}", table)];
+            ob_tags("outcome", &obs, &mut tags);
+            let n400 = obs.iter().filter(|o| **o == Ob::Status(400)).count();
+            let ndel = obs.iter().filter(|o| matches!(o, Ob::Deliver { .. })).count();
+            Line {
+                group: static_str(group),
+                case: serde_json::to_value(case).unwrap(),
+                obs: json!({"n": obs.len(), "delivered": ndel, "refused_400": n400,
+                            "first_path": paths[0], "last_path": paths[paths.len() - 1],
+                            "first": obs.iter().take(4).collect::<Vec<_>>()}),
+                coq,
+                tags,
+                nontrivial: true,
             }
         }
         Case::Live { table, targets, tag } => {
@@ -769,30 +869,15 @@ fn gen_exhaustive(cases: &mut Vec<Case>) {
                 segs.push(segalpha[c % 3].to_string());
                 c /= 3;
             }
-            let mut spellings = vec![];
             if k == 0 {
-                for s in ["", "/", "//", "///"] {
-                    spellings.push(s.to_string());
-                }
+                let spellings = ["", "/", "//", "///"].iter().map(|s| s.to_string()).collect();
+                cases.push(Case::Equiv { table: 0, paths: spellings, tag: "slash-placements-0seg".into() });
             } else {
                 let ngaps = k - 1;
-                for lead in 1..=2usize {
-                    for gcode in 0..3usize.pow(ngaps as u32) {
-                        let mut g = gcode;
-                        let mut gaps = vec![];
-                        for _ in 0..ngaps {
-                            gaps.push(1 + g % 3);
-                            g /= 3;
-                        }
-                        for trail in 0..=2usize {
-                            spellings.push(assemble(&segs, lead, &gaps, trail));
-                        }
-                    }
-                }
                 noleading.push(assemble(&segs, 0, &vec![1; ngaps], 0));
                 noleading.push(assemble(&segs, 0, &vec![2; ngaps], 1));
+                cases.push(Case::Place { table: 0, segs, tag: format!("slash-placements-{}seg", k) });
             }
-            cases.push(Case::Equiv { table: 0, paths: spellings, tag: format!("slash-placements-{}seg", k) });
         }
     }
     cases.push(Case::Paths { table: 0, paths: noleading, tag: "no-leading-slash".into() });
@@ -847,17 +932,11 @@ fn gen_exhaustive(cases: &mut Vec<Case>) {
 }
 
 /// all 65536 two-byte escaped sequences "/%xy%zw" (table 0) or "/v/%XY%ZW"
-/// (table 1), 1024 per case
-fn gen_two_byte(cases: &mut Vec<Case>, leads: &[u8], upper: bool, table: usize, tag: &str) {
+/// (table 1), one case per lead byte
+fn gen_two_byte(cases: &mut Vec<Case>, upper: bool, table: usize, tag: &str) {
     let prefix = if table == 1 { "/v/" } else { "/" };
-    for chunk in leads.chunks(4) {
-        let mut paths = Vec::with_capacity(1024);
-        for b0 in chunk {
-            for b1 in 0..=255u8 {
-                paths.push(format!("{}{}{}", prefix, esc(*b0, upper, upper), esc(b1, upper, upper)));
-            }
-        }
-        cases.push(Case::Paths { table, paths, tag: tag.to_string() });
+    for lead in 0..=255u8 {
+        cases.push(Case::Sweep2 { table, prefix: prefix.to_string(), upper, lead, tag: tag.to_string() });
     }
 }
 
@@ -952,13 +1031,29 @@ fn gen(opts: &Opts) -> Vec<Case> {
     let mut rng = Rng::new(opts.seed);
     let mut cases = vec![];
     gen_exhaustive(&mut cases);
-    let all: Vec<u8> = (0..=255u8).collect();
-    gen_two_byte(&mut cases, &all, false, 0, "utf8-2byte-all");
+    gen_two_byte(&mut cases, false, 0, "utf8-2byte-all");
     if opts.thorough {
         // the same sweep in upper-case hex as the value of a single variable
-        gen_two_byte(&mut cases, &all, true, 1, "utf8-2byte-all-variable");
-        gen_random(&mut cases, &mut rng, 4000, 400, 16384);
-        gen_live(&mut cases, &mut rng, 300);
+        gen_two_byte(&mut cases, true, 1, "utf8-2byte-all-variable");
+        // embedded after a literal character
+        for lead in 0..=255u8 {
+            cases.push(Case::Sweep2 { table: 0, prefix: "/a".into(), upper: false, lead, tag: "utf8-2byte-all-embedded".into() });
+        }
+        // every 3-byte sequence with lead E0, E1, ED, EE, EF and every 4-byte
+        // sequence beginning F0 8F / F0 90 / F1 80 / F4 8F / F4 90 / F5 80
+        for pre in ["%e0", "%e1", "%ed", "%ee", "%EF", "%f0%8f", "%f0%90", "%F1%80", "%f4%8f", "%f4%90", "%f5%80"] {
+            for b in 0..=255u8 {
+                cases.push(Case::Sweep2 {
+                    table: 0,
+                    prefix: format!("/{}", pre),
+                    upper: pre.chars().any(|c| c.is_ascii_uppercase()),
+                    lead: b,
+                    tag: format!("utf8-long-sweep-{}", pre.replace('%', "").to_lowercase()),
+                });
+            }
+        }
+        gen_random(&mut cases, &mut rng, 12000, 1200, 65536);
+        gen_live(&mut cases, &mut rng, 600);
     } else {
         gen_random(&mut cases, &mut rng, 400, 40, 1024);
         gen_live(&mut cases, &mut rng, 30);
@@ -969,6 +1064,8 @@ fn gen(opts: &Opts) -> Vec<Case> {
     let size = |c: &Case| match c {
         Case::Paths { paths, .. } | Case::Equiv { paths, .. } => paths.iter().map(|p| p.len() + 8).sum::<usize>(),
         Case::Live { targets, .. } => targets.iter().map(|t| t.len() / 2 + 8).sum::<usize>(),
+        Case::Sweep2 { lead, prefix, .. } => if *lead < 128 && prefix.len() <= 3 { 2500 } else { 600 },
+        Case::Place { .. } => 100,
     };
     let mut idx: Vec<usize> = (0..cases.len()).collect();
     idx.sort_by_key(|i| (std::cmp::Reverse(size(&cases[*i])), *i));
